@@ -308,7 +308,7 @@ def main(ctx):
         xl.append({'id': len(xl), 'kind': 'sweep', 'op': cs['op'], 'cs': cs, 'f': cs['f'], 'layouts': lays, 'results': results})
         ctx.count('V_ops_cases')
     # ---- V (b) + (c)
-    sw = xl + sweep_events(ctx, 45 if quick else 1500, len(xl))
+    sw = xl + sweep_events(ctx, 80 if quick else 1500, len(xl))
     ro = routes_events(ctx, 300 if quick else 6000, len(sw))
     rej = ctx.validate_events('Trace_C03', 'Trace.cfg', sw + ro, chunk=600)
     for ev in sw + ro:
